@@ -57,6 +57,22 @@ def geometry_writers(prog):
     return entries, helpers
 
 
+def donor_of(v, k):
+    """the other filter X when v is X's array k itself or a copy of it (X.k[:], array(tc, X.k), list(X.k), copy / deepcopy of X.k)"""
+    v = strip_epochs(v)
+    src = v
+    if v[0] == "slice" and tuple(v[2:5]) == (C(None), C(None), C(None)):
+        src = v[1]
+    elif v[0] == "call" and v[1] in (("ext", "copy", "deepcopy"), ("ext", "copy", "copy"), ("g", "list"), ("g", "bytearray")) and len(v[2]) == 1:
+        src = v[2][0]
+    elif v[0] == "newb" and v[1] == "array" and len(v[3]) == 2:
+        src = v[3][1]
+    src = strip_epochs(src)
+    if src[0] == "f" and src[2] == k and src[1] != SELF:
+        return src[1]
+    return None
+
+
 def quotient_counter_rules(prog, rep, rid):
     """quotient filter: +1 per slot filled, -1 per slot emptied, unchanged when absent, reset with the arrays (shared with C04)"""
     # ---------------------------------------------------------------- quotient filter
@@ -84,10 +100,14 @@ def quotient_counter_rules(prog, rep, rid):
             break
     if okq:
         rep.ok(rid, f"{ctx}._add: +1 on every non-raising path")
-    fr = prog.method(ctx, "_remove_element")
+    # judged on the public removal as a whole, with the private routine looked through: whichever of the two holds the bookkeeping
+    # (the routine itself, or its caller acting on the routine's answer), a removal that empties a slot counts one down
+    fr = prog.method(ctx, "remove_alt")
+    if prog.cls(ctx).find_method("_remove_element") is None:
+        raise AnalysisError("anchor vanished: QuotientFilter._remove_element")
     okq = True
     npaths = 0
-    for p in paths(prog, ctx, fr, max_states=20000):
+    for p in paths(prog, ctx, fr, max_states=20000, force_inline=("_remove_element",)):
         if p.exit[0] != "return":
             continue
         npaths += 1
@@ -97,13 +117,13 @@ def quotient_counter_rules(prog, rep, rid):
         if d != want:
             loc = fr.where(p.exit[2]) if p.exit[2] is not None else fr.where()
             rep.bad(rid, f"{ctx}._remove_element", f"table mutated={bool(mut)}, counter deltas {[nshow(x) if x else '?' for x in d]}",
-                    f"a path of _remove_element {'empties a slot' if mut else 'changes nothing'} but elements_added moves by {[nshow(x) if x else '?' for x in d] or 'nothing'}: "
+                    f"a path of remove_alt / _remove_element {'empties a slot' if mut else 'changes nothing'} but elements_added moves by {[nshow(x) if x else '?' for x in d] or 'nothing'}: "
                     "after a removal elements_added is no longer the number of stored hashes (and the load factor is wrong)", loc)
             okq = False
             break
     rep.analysed(fr, ctx, npaths)
     if okq:
-        rep.ok(rid, f"{ctx}._remove_element: -1 on every mutating path ({npaths} paths), 0 when absent")
+        rep.ok(rid, f"{ctx}.remove_alt (with _remove_element looked through): -1 on every mutating path ({npaths} paths), 0 when absent")
     # reset with the arrays: wherever a method (private helpers looked through) gives the receiver a new remainder array, it also
     # sets the counter - to 0 next to a fresh allocation, to the donor's counter next to an adopted array
     entries, helpers = geometry_writers(prog)
@@ -118,9 +138,10 @@ def quotient_counter_rules(prog, rep, rid):
             nres += 1
             v = strip_epochs(arr[-1].value)
             sets = [strip_epochs(e.value) for e in counter_events(p, E) if e.kind == "setfield"]
-            if v[0] == "f" and v[2] == "_filter" and v[1] != SELF:
-                want = ("f", v[1], E, 0)
-                what = f"the counter of {nshow(v[1])}"
+            donor = donor_of(v, "_filter")
+            if donor is not None:
+                want = ("f", donor, E, 0)
+                what = f"the counter of {nshow(donor)}"
             else:
                 want, what = C(0), "0"
             if want not in sets:
